@@ -289,6 +289,18 @@ async fn connect(options: &mut MqttOptions) -> Result<(Network, ConnAck), Connec
 }
 
 async fn network_connect(options: &MqttOptions) -> Result<Network, ConnectionError> {
+    #[cfg(rumqtt_verif)]
+    if let Some(fut) = crate::verif::connect(&options.client_id()) {
+        let stream = fut.await?;
+        let mut max_incoming_pkt_size = Some(options.default_max_incoming_size);
+        if let Some(connect_props) = &options.connect_properties {
+            if let Some(max_size) = connect_props.max_packet_size {
+                max_incoming_pkt_size = Some(max_size);
+            }
+        }
+        return Ok(Network::new(stream, max_incoming_pkt_size));
+    }
+
     let mut max_incoming_pkt_size = Some(options.default_max_incoming_size);
 
     // Override default value if max_packet_size is set on `connect_properties`
